@@ -21,7 +21,7 @@ func registerMore(add func(PropDef)) {
 		Rule: "token sequences (valid messages, mutated invalid ones, several messages) rendered under a plain and a random layout (blank kinds and amounts, CRLF, comments with arbitrary bytes incl. UTF-8 tails 0x85/0xA0, \\v, \\f, keyword/prefix case): messages equal and diagnostics equal after mapping positions to the tokens they point at; comments with random bytes appended to any line of printed messages; both renderings compared with the Lean model"})
 	add(PropDef{ID: "C15", Suites: func() []Suite { return suiteC15(nil) },
 		Rule: "all four declaration forms x 14 item types x (lower, upper, count) in [0,4]^3 (thorough [0,6]^3, quick a random third): accepted iff within bounds, error at the declaration otherwise; huge and overflowing bounds against big-integer arithmetic; ASCII variables in all four forms: bounds printed back, fills of every length 0..max+1 accepted iff inside; compared with the Lean model"})
-	add(PropDef{ID: "C19", Level: "other", Suites: func() []Suite { return suiteC19(nil) },
+	add(PropDef{ID: "C19", Level: "proof", Suites: func() []Suite { return suiteC19(nil) },
 		Rule: "2-3 accepted texts (printed or randomly laid out, deliberately reusing variable names and ellipses) joined by separators (nothing, blanks, line breaks, comments): same messages in order as parsing each alone, no errors; compared with the Lean model"})
 	add(PropDef{ID: "C07", Suites: func() []Suite { return suiteC07(nil) },
 		Rule: "byte strings decoded in an isolated worker process (8 GiB address-space limit, 30 s watchdog) with runtime.MemStats.TotalAlloc measured per call: short inputs declaring huge lengths for all 14 formats x 1/2/3 length bytes x nesting depths 0..100 (thorough ..1000) x three tails; chains of list headers declaring huge counts; valid messages, their structured corruptions, random bytes; 1 KB / 64 KB / 1 MB strings complete and truncated; bound checked: allocated <= 1024*len + 65536 (worst measured on the unchanged tree: 324 B per input byte); inputs up to 4 KB are also compared with the Lean decoder"})
